@@ -92,15 +92,21 @@ def _geom(name):
 def build(spec):
     import trimesh
     s = trimesh.Scene()
+    handed = []          # the caller's matrices: scribbled on afterwards, the scene must hold its own copies
     for row in spec:
         if row[0] == "frame":
-            s.graph.update(frame_to=row[1], frame_from=row[2], matrix=np.array(row[3]))
+            A = np.array(row[3], dtype=np.float64)
+            s.graph.update(frame_to=row[1], frame_from=row[2], matrix=A)
         else:
             _, name, parent, M, g = row
+            A = np.array(M, dtype=np.float64)
             if g in s.geometry:
-                s.graph.update(frame_to=name, frame_from=parent, matrix=np.array(M), geometry=g)
+                s.graph.update(frame_to=name, frame_from=parent, matrix=A, geometry=g)
             else:
-                s.add_geometry(_geom(g), node_name=name, geom_name=g, parent_node_name=parent, transform=np.array(M))
+                s.add_geometry(_geom(g), node_name=name, geom_name=g, parent_node_name=parent, transform=A)
+        handed.append(A)
+    for A in handed:
+        A += 5.0
     return s
 
 
